@@ -22,6 +22,8 @@ import LinVerif.Lemmas.C04Once
 import Mathlib.Data.List.Count
 
 set_option linter.unusedSimpArgs false
+set_option linter.unusedTactic false
+set_option linter.unreachableTactic false
 namespace LinVerif.Props.C04
 open LinVerif.Rollup LinVerif.Lemmas.C04
 
@@ -48,11 +50,21 @@ theorem tie_rollup_methods (r : R) (slot ts : Int) :
     r.calcSlot ts = Generated.C04.calcSlot (calcSlotOf (itype r.target)) r.target r.targetFTime ts ∧
     Generated.C04.baseSlotArg = "r.sourceFTime" := ⟨rfl, rfl, rfl, rfl⟩
 
-/-- the placement formula of `DownSamplingMultiSeriesInto` (operands are `uint16`, hence ≥ 0) -/
-theorem tie_targetPos (ratio bs tstart : Int) (s : Nat) :
-    targetPos ratio bs tstart s = Generated.C04.targetPos (Generated.C04.bsOf bs) s ratio tstart := by
-  unfold targetPos Generated.C04.targetPos Generated.C04.bsOf
-  rw [Int.tdiv_eq_ediv_of_nonneg (Int.natCast_nonneg s)]
+/-- The position formula of the down-sampling entry point that `seriesMerger.merge` calls is the one
+the model uses for the placement the code has (`placementByTimestamp` is regenerated: `false` =
+`baseSlot + slot/ratio`, `true` = slot of the timestamp, i.e. fixes/C04-…patch applied; the driver
+selects the same branch). Operands are `uint16`, hence ≥ 0. -/
+theorem tie_targetPos (r : R) (tstart : Int) (s : Nat) :
+    (if Generated.C04.placementByTimestamp then targetPosTs r tstart s
+      else targetPos r.intervalRatio r.baseSlot tstart s) =
+    Generated.C04.targetPos (Generated.C04.bsOf r.baseSlot) s r.intervalRatio tstart
+      (Generated.C04.prepareSlotOf r.calcSlot r.getTimestamp) := by
+  first
+  | (show targetPos r.intervalRatio r.baseSlot tstart s = _
+     unfold targetPos Generated.C04.targetPos Generated.C04.bsOf
+     rw [Int.tdiv_eq_ediv_of_nonneg (Int.natCast_nonneg s)])
+  | (show targetPosTs r tstart s = _
+     rfl)
 
 /-- `merger.prepare` uses the rollup object as `prepare` does; `family.rollup()` locates the target
 with the calls `locate` mirrors -/
@@ -209,24 +221,27 @@ theorem slot_placement_year (c : Cal) (D h s src tgt : Nat) (hc : c.OkAt D) (hh 
 /-! ## the aggregate in every target slot -/
 
 /-- What `merger.prepare` + `DownSamplingMultiSeriesInto` compute for one field of one series, when
-every source slot in the merged source range is placed at the slot of its timestamp and the target
-slot is monotone in the source slot: target position `q` (target slot `tStart + q`) holds the
-field-type aggregate of exactly the source values whose timestamps fall into that target slot.
+the position of every source slot in the merged source range is the slot of its timestamp (minus
+the start of the target range) and the target slot is monotone in the source slot: target position
+`q` (target slot `tStart + q`) holds the field-type aggregate of exactly the source values whose
+timestamps fall into that target slot; nothing is clipped.
 `decs` = the decoders of the input files, `sStart..sEnd` = the union of their slot ranges. -/
 theorem rollup_value_of_placement (r : R) (ft : Nat) (decs : List (List (Nat × Int))) (sStart sEnd : Nat)
+    (posOf : Nat → Int)
     (cs : Nat → Nat) (hcs : ∀ s, s ≤ sEnd → r.calcSlot (r.getTimestamp s) = (cs s : Int))
     (hrange : ∀ d ∈ decs, ∀ sv ∈ d, sStart ≤ sv.1 ∧ sv.1 ≤ sEnd)
-    (hplace : ∀ s, s ≤ sEnd → r.baseSlot + (s : Int) / r.intervalRatio = r.calcSlot (r.getTimestamp s))
+    (hplace : ∀ s, s ≤ sEnd →
+      posOf s = r.calcSlot (r.getTimestamp s) - r.calcSlot (r.getTimestamp sStart))
     (hmono : ∀ s t, s ≤ t → t ≤ sEnd → cs s ≤ cs t)
     (hsmall : cs sEnd < 65536) (q : Nat) :
     let tStart := r.calcSlot (r.getTimestamp sStart)
     let tEnd := r.calcSlot (r.getTimestamp sEnd)
-    downSample ft r.intervalRatio r.baseSlot tStart (u16 (tEnd - tStart) + 1).toNat decs q =
+    downSample ft posOf (u16 (tEnd - tStart) + 1).toNat decs q =
       (decs.flatten.filter (fun sv => decide (r.calcSlot (r.getTimestamp sv.1) = tStart + (q : Int)))).foldl
         (aggF ft) none := by
   intro tStart tEnd
   by_cases hall : ∀ d ∈ decs, d = []
-  · rw [flatten_nil_of_empty decs hall, downSample_nil_of_empty ft _ _ _ _ decs hall q]
+  · rw [flatten_nil_of_empty decs hall, downSample_nil_of_empty ft _ _ decs hall q]
     rfl
   · have hne : ∃ d ∈ decs, ∃ sv, sv ∈ d := by
       by_contra hcon
@@ -243,7 +258,7 @@ theorem rollup_value_of_placement (r : R) (ft : Nat) (decs : List (List (Nat × 
       have : u16 ((cs sEnd : Int) - cs sStart) = (cs sEnd : Int) - cs sStart := by
         unfold u16; omega
       rw [this]; omega
-    refine downSample_by_slot ft _ _ tStart _ decs (fun s => r.calcSlot (r.getTimestamp (s : Int))) ?_ q
+    refine downSample_by_slot ft posOf tStart _ decs (fun s => r.calcSlot (r.getTimestamp (s : Int))) ?_ q
     intro d hd sv hsv
     obtain ⟨h1, h2⟩ := hrange d hd sv hsv
     have hm1 := hmono sStart sv.1 h1 h2
@@ -252,8 +267,9 @@ theorem rollup_value_of_placement (r : R) (ft : Nat) (decs : List (List (Nat × 
     · simp only [tStart, hcs sStart hse, hcs sv.1 h2]; omega
     · rw [hlen]; simp only [tStart, hcs sStart hse, hcs sv.1 h2]; omega
 
-/-- month-type target: every target slot holds the aggregate of exactly the source values whose
-timestamps fall inside it (`sStart..sEnd` = merged source range, inside the source family). -/
+/-- month-type target, placement `baseSlot + slot/ratio` (the code as it is): under the guard every
+target slot holds the aggregate of exactly the source values whose timestamps fall inside it
+(`sStart..sEnd` = merged source range, inside the source family). -/
 theorem rollup_value_month (c : Cal) (D h src tgt : Nat) (hc : c.OkAt D) (hh : h < 24)
     (hst : itype (src : Int) = .day) (htt : itype (tgt : Int) = .month) (g : Guard src tgt 3600000)
     (ft : Nat) (decs : List (List (Nat × Int))) (sStart sEnd : Nat) (hend : sEnd * src < 3600000)
@@ -261,33 +277,26 @@ theorem rollup_value_month (c : Cal) (D h src tgt : Nat) (hc : c.OkAt D) (hh : h
     let r := mkR c src tgt ((D : Int) * oneDay) h
     let tStart := r.calcSlot (r.getTimestamp sStart)
     let tEnd := r.calcSlot (r.getTimestamp sEnd)
-    downSample ft r.intervalRatio r.baseSlot tStart (u16 (tEnd - tStart) + 1).toNat decs q =
+    downSample ft (targetPos r.intervalRatio r.baseSlot tStart) (u16 (tEnd - tStart) + 1).toNat decs q =
       (decs.flatten.filter (fun sv => decide (r.calcSlot (r.getTimestamp sv.1) = tStart + (q : Int)))).foldl
         (aggF ft) none := by
   intro r
-  have hloc := locate_month c src tgt D h hc hst htt ⟨by omega, by omega⟩
-  have hr : r = ⟨src, tgt, (D : Int) * oneDay + ((h * 3600000 : Nat) : Int), (D : Int) * oneDay⟩ := by
-    simp only [r, mkR, hloc]; congr 1
+  obtain ⟨hr, hcs, hmono, hsmall⟩ := month_setup c D h src tgt hc hh hst htt sEnd hend
   have hF : (3600000 : Nat) ∣ h * 3600000 := Dvd.intro_left h rfl
-  have hm := (itype_month_iff tgt).1 htt
   have hlt : ∀ s, s ≤ sEnd → s * src < 3600000 := fun s hs =>
     Nat.lt_of_le_of_lt (Nat.mul_le_mul_right src hs) hend
-  have hp : ∀ s, s ≤ sEnd → _ := fun s hs =>
-    place_month ((D : Int) * oneDay) (h * 3600000) s src tgt 3600000 g htt hF (hlt s hs)
-      (by have := hlt s hs; omega)
-  apply rollup_value_of_placement r ft decs sStart sEnd (fun s => (h * 3600000 + s * src) / tgt)
-  · intro s hs; rw [hr]; exact (hp s hs).2
-  · exact hrange
-  · intro s hs; rw [hr]; exact (hp s hs).1
-  · intro s t hst' _
-    exact Nat.div_le_div_right (by have := Nat.mul_le_mul_right src hst'; omega)
-  · have h1 : (h * 3600000 + sEnd * src) / tgt ≤ (h * 3600000 + sEnd * src) / 300000 :=
-      Nat.div_le_div_left (by omega) (by norm_num)
-    have := hlt sEnd (Nat.le_refl _)
-    show (h * 3600000 + sEnd * src) / tgt < 65536
-    omega
+  apply rollup_value_of_placement r ft decs sStart sEnd _ (fun s => (h * 3600000 + s * src) / tgt) hcs hrange
+  · intro s hs
+    have := (place_month ((D : Int) * oneDay) (h * 3600000) s src tgt 3600000 g htt hF (hlt s hs)
+      (by have := hlt s hs; omega)).1
+    simp only [r]
+    rw [hr]
+    unfold targetPos
+    rw [this]
+  · exact hmono
+  · exact hsmall
 
-/-- year-type target: as `rollup_value_month`. -/
+/-- year-type target, placement `baseSlot + slot/ratio`: as `rollup_value_month`. -/
 theorem rollup_value_year (c : Cal) (D h src tgt : Nat) (hc : c.OkAt D) (hh : h < 24)
     (hst : itype (src : Int) = .day) (htt : itype (tgt : Int) = .year) (g : Guard src tgt 3600000)
     (ft : Nat) (decs : List (List (Nat × Int))) (sStart sEnd : Nat) (hend : sEnd * src < 3600000)
@@ -295,41 +304,56 @@ theorem rollup_value_year (c : Cal) (D h src tgt : Nat) (hc : c.OkAt D) (hh : h 
     let r := mkR c src tgt ((D : Int) * oneDay) h
     let tStart := r.calcSlot (r.getTimestamp sStart)
     let tEnd := r.calcSlot (r.getTimestamp sEnd)
-    downSample ft r.intervalRatio r.baseSlot tStart (u16 (tEnd - tStart) + 1).toNat decs q =
+    downSample ft (targetPos r.intervalRatio r.baseSlot tStart) (u16 (tEnd - tStart) + 1).toNat decs q =
       (decs.flatten.filter (fun sv => decide (r.calcSlot (r.getTimestamp sv.1) = tStart + (q : Int)))).foldl
         (aggF ft) none := by
   intro r
-  have hloc := locate_year c src tgt D h hc hst htt ⟨by omega, by omega⟩
-  obtain ⟨k, hk⟩ : ∃ k : Nat, (D : Int) - c.monthStart D = k :=
-    ⟨((D : Int) - c.monthStart D).toNat, by have := hc.le; omega⟩
-  have hk32 : k < 32 := by have := hc.span; omega
-  have htgt36 : 3600000 ≤ tgt := by have := (itype_year_iff tgt).1 htt; omega
-  set o : Nat := k * 86400000 + h * 3600000 with ho
-  have hF : (3600000 : Nat) ∣ o := ⟨k * 24 + h, by omega⟩
-  have hD : (D : Int) = c.monthStart D + k := by omega
-  have hr : r = ⟨src, tgt, c.monthStart D * oneDay + ((o : Nat) : Int), c.monthStart D * oneDay⟩ := by
-    simp only [r, mkR, hloc]
-    congr 1
-    simp only [ho, oneDay, oneHour]
-    push_cast
-    omega
+  obtain ⟨o, hF, hr, hcs, hmono, hb⟩ := year_setup c D h src tgt hc hh hst htt sEnd hend
   have hlt : ∀ s, s ≤ sEnd → s * src < 3600000 := fun s hs =>
     Nat.lt_of_le_of_lt (Nat.mul_le_mul_right src hs) hend
-  have hb : ∀ s, s ≤ sEnd → (o + s * src) / tgt < 65536 := by
-    intro s hs
-    have h1 : (o + s * src) / tgt ≤ (o + s * src) / 3600000 := Nat.div_le_div_left htgt36 (by norm_num)
-    have := hlt s hs
-    omega
-  have hp : ∀ s, s ≤ sEnd → _ := fun s hs =>
-    place_year (c.monthStart D * oneDay) o s src tgt 3600000 g htt hF (hlt s hs) (hb s hs)
-  apply rollup_value_of_placement r ft decs sStart sEnd (fun s => (o + s * src) / tgt)
-  · intro s hs; rw [hr]; exact (hp s hs).2
-  · exact hrange
-  · intro s hs; rw [hr]; exact (hp s hs).1
-  · intro s t hst' _
-    exact Nat.div_le_div_right (by have := Nat.mul_le_mul_right src hst'; omega)
+  apply rollup_value_of_placement r ft decs sStart sEnd _ (fun s => (o + s * src) / tgt) hcs hrange
+  · intro s hs
+    have := (place_year (c.monthStart D * oneDay) o s src tgt 3600000 g htt hF (hlt s hs) (hb s hs)).1
+    simp only [r]
+    rw [hr]
+    unfold targetPos
+    rw [this]
+  · exact hmono
   · exact hb sEnd (Nat.le_refl _)
 
+/-- Placement by the slot of the timestamp (`targetPosTs`, the code with fixes/C04-…patch): the same
+conclusion for EVERY source interval of day type and every target interval of month type — no
+divisibility guard, no bound on the ratio. -/
+theorem rollup_value_by_timestamp_month (c : Cal) (D h src tgt : Nat) (hc : c.OkAt D) (hh : h < 24)
+    (hst : itype (src : Int) = .day) (htt : itype (tgt : Int) = .month)
+    (ft : Nat) (decs : List (List (Nat × Int))) (sStart sEnd : Nat) (hend : sEnd * src < 3600000)
+    (hrange : ∀ d ∈ decs, ∀ sv ∈ d, sStart ≤ sv.1 ∧ sv.1 ≤ sEnd) (q : Nat) :
+    let r := mkR c src tgt ((D : Int) * oneDay) h
+    let tStart := r.calcSlot (r.getTimestamp sStart)
+    let tEnd := r.calcSlot (r.getTimestamp sEnd)
+    downSample ft (targetPosTs r tStart) (u16 (tEnd - tStart) + 1).toNat decs q =
+      (decs.flatten.filter (fun sv => decide (r.calcSlot (r.getTimestamp sv.1) = tStart + (q : Int)))).foldl
+        (aggF ft) none := by
+  intro r
+  obtain ⟨_, hcs, hmono, hsmall⟩ := month_setup c D h src tgt hc hh hst htt sEnd hend
+  exact rollup_value_of_placement r ft decs sStart sEnd _ (fun s => (h * 3600000 + s * src) / tgt) hcs hrange
+    (fun s _ => rfl) hmono hsmall q
+
+/-- … and of year type. -/
+theorem rollup_value_by_timestamp_year (c : Cal) (D h src tgt : Nat) (hc : c.OkAt D) (hh : h < 24)
+    (hst : itype (src : Int) = .day) (htt : itype (tgt : Int) = .year)
+    (ft : Nat) (decs : List (List (Nat × Int))) (sStart sEnd : Nat) (hend : sEnd * src < 3600000)
+    (hrange : ∀ d ∈ decs, ∀ sv ∈ d, sStart ≤ sv.1 ∧ sv.1 ≤ sEnd) (q : Nat) :
+    let r := mkR c src tgt ((D : Int) * oneDay) h
+    let tStart := r.calcSlot (r.getTimestamp sStart)
+    let tEnd := r.calcSlot (r.getTimestamp sEnd)
+    downSample ft (targetPosTs r tStart) (u16 (tEnd - tStart) + 1).toNat decs q =
+      (decs.flatten.filter (fun sv => decide (r.calcSlot (r.getTimestamp sv.1) = tStart + (q : Int)))).foldl
+        (aggF ft) none := by
+  intro r
+  obtain ⟨o, _, _, hcs, hmono, hb⟩ := year_setup c D h src tgt hc hh hst htt sEnd hend
+  exact rollup_value_of_placement r ft decs sStart sEnd _ (fun s => (o + s * src) / tgt) hcs hrange
+    (fun s _ => rfl) hmono (hb sEnd (Nat.le_refl _)) q
 
 /-! ## once -/
 
